@@ -267,6 +267,9 @@ def fix_constants(e):
     if not X.variables(e) and not X.uses_time(e):
         if not refsem.const_ok(e):
             return ["num", "2"]
+    if tag == "bin" and e[1] == "-" and e[2] == e[3]:
+        # 'x - x' is a symbolic zero: dividing by it is no model
+        e = [e[0], e[1], e[2], ["num", "2"]]
     if (tag == "bin" and e[1] == "/") or (tag == "call" and e[1] == "Mod"):
         dv = e[3]
         if not X.variables(dv) and not X.uses_time(dv):
